@@ -65,6 +65,9 @@ func (c *decCtx) expr(e ast.Expr) string {
 				if isInt {
 					return fmt.Sprintf("(intQuo %s %s)", recv, arg(0))
 				}
+				return fmt.Sprintf("(decQuo %s %s)", recv, arg(0))
+			case "QuoTruncate":
+				return fmt.Sprintf("(decQuoTruncate %s %s)", recv, arg(0))
 			case "MulInt64":
 				return fmt.Sprintf("(decMulInt64 %s %s)", recv, arg(0))
 			case "QuoInt64":
